@@ -16,14 +16,15 @@ RULE = ("for each transfer kind {RETR, STOR, APPE, LIST, MLSD} x file size aroun
         "timing {before the command, after the 150 mark, never} x passive command: ABOR is written on the control "
         "channel right after network event k (optionally i loop iterations later, zero latency) for every k from the "
         "transfer command to the end of the fault-free run, plus after completion and with no transfer at all; then a "
-        "follow-up {PWD + complete transfer, PASV + LIST, QUIT}.  distinct = distinct (kind, position, reply sequence, "
+        "follow-up {PWD + complete transfer, PASV + LIST, QUIT}.  Second driver: aioftp's own Client aborts (Client.abort) a "
+        "400 kB download / upload after 0..7 blocks and goes on (list, download, upload, PWD, QUIT on the same client).  distinct = distinct (kind, position, reply sequence, "
         "bytes moved) signatures; every sub-run sends an ABOR, so all are non-trivial.")
 ASSUMPTIONS = [
     "in-memory network model; the peer is a raw FTP client, not aioftp's",
     "reply shapes accepted: [1xx, C, 226] with C in {2xx, 425, 426, 451} or [4xx/5xx, 226]; anything else, a missing or "
     "an extra reply is a violation",
 ]
-REQUIRED_MONITORS = ["reply_sequence", "data_eof", "prefix", "followup", "silence"]
+REQUIRED_MONITORS = ["reply_sequence", "data_eof", "prefix", "followup", "silence", "client_abort"]
 ANCHOR_FUNCTIONS = ['server.py:Server.abor', 'server.py:worker.<locals>.wrapper']
 EXHAUSTIVE = {"quick": True, "thorough": True}
 WALL_BUDGET = {"quick": 900, "thorough": 7200}
@@ -279,10 +280,83 @@ async def execute(net, hyg, plan):
         w.cleanup()
 
 
+async def execute_client(net, hyg, plan):
+    """aioftp's own client as the driver: Client.abort() in the middle of a transfer that cannot have completed (file larger
+    than every buffer on the way), then ordinary use of the same client."""
+    import aioftp
+    size = plan["size"]
+    content = payload_bytes(size, 5)
+    w = W.World(net, tree={"/big.bin": content, "/small.txt": b"0123456789", "/old.bin": OLD})
+    await w.start()
+    viol = []
+    mon = {"client_abort": 1, "followup": 0, "prefix": 0}
+    where = f"client plan {plan}"
+    try:
+        async def scenario():
+            c = aioftp.Client(path_io_factory=aioftp.MemoryPathIO, passive_commands=(plan.get("passive", "epsv"),))
+            await c.connect("127.0.0.1", 2121)
+            await c.login()
+            got = b""
+            if plan["direction"] == "download":
+                stream = await c.download_stream("/big.bin", offset=plan.get("offset", 0))
+                for _ in range(plan["blocks"]):
+                    got += await stream.read(plan["block"])
+                await c.abort(wait=True)
+                stream.close()
+                mon["prefix"] += 1
+                if not content[plan.get("offset", 0):].startswith(got):
+                    viol.append({"key": "client-abort:not-a-prefix", "msg": f"{where}: {len(got)} bytes read before abort are no prefix"})
+            else:
+                stream = await c.upload_stream("/up.bin")
+                for i in range(plan["blocks"]):
+                    await stream.write(content[i * plan["block"]:(i + 1) * plan["block"]])
+                await asyncio.sleep(plan.get("settle", 0.05))
+                await c.abort(wait=True)
+                stream.close()
+            # the same client keeps working
+            names = sorted(str(p) for p, _ in await c.list("/"))
+            small = b""
+            async with c.download_stream("/small.txt") as s2:
+                async for b in s2.iter_by_block(4):
+                    small += b
+            async with c.upload_stream("/after.bin") as s3:
+                await s3.write(b"after")
+            pwd = await c.get_current_directory()
+            await c.quit()
+            return names, small, str(pwd)
+        t = asyncio.ensure_future(scenario())
+        done, pending = await asyncio.wait([t], timeout=120)
+        if pending:
+            t.cancel()
+            viol.append({"key": "client-abort:hangs", "msg": f"{where}: abort + follow-up did not finish within 120 virtual s"})
+        else:
+            try:
+                names, small, pwd = t.result()
+                mon["followup"] += 1
+                tree = w.tree()
+                if small != b"0123456789" or pwd != "/" or tree.get("/after.bin") != b"after" or "/small.txt" not in names:
+                    viol.append({"key": "client-abort:followup-wrong",
+                                 "msg": f"{where}: listing {names}, small {small!r}, pwd {pwd}, after.bin {tree.get('/after.bin')!r}"})
+                if plan["direction"] == "upload":
+                    mon["prefix"] += 1
+                    stored = tree.get("/up.bin")
+                    if stored is not None and not content.startswith(stored):
+                        viol.append({"key": "client-abort:not-a-prefix", "msg": f"{where}: stored {len(stored)} bytes are no prefix"})
+            except Exception as e:
+                viol.append({"key": f"client-abort:raises-{type(e).__name__}", "msg": f"{where}: {e!r}"})
+        await net.quiesce(2.0)
+        for leak in w.leaks():
+            viol.append({"key": "client-abort:leak", "msg": f"{where}: {leak}"})
+        await w.stop()
+        return {"violations": viol, "monitors": mon, "sig": sig_of(plan), "nevents": len(net.events), "phase": "client", "seq": None}
+    finally:
+        w.cleanup()
+
+
 def run_plan(plan):
     rearm()
     async def main(net, hyg):
-        return await execute(net, hyg, plan)
+        return await (execute_client if plan.get("client") else execute)(net, hyg, plan)
     res, info = W.run(main, seed=plan.get("seed", 0),
                       net_kwargs=dict(mss=plan.get("mss", 1460), latency=plan.get("latency", 0.001)))
     if res is None:
@@ -382,4 +456,13 @@ def gen_cases(tier, seed):
                       "plan": {"verb": "RETR", "size": 500000, "connect": "before", "stall_after": 20000, "seed": seed, "followup": fu}})
     for fu in fus:
         cases.append({"kind": "single", "plan": {"verb": "RETR", "size": 0, "no_transfer": True, "followup": fu, "seed": seed}})
+    # aioftp's own client aborts in mid-transfer and goes on
+    for direction in ("download", "upload"):
+        for blocks in ((1, 3) if tier == "quick" else (0, 1, 2, 3, 7)):
+            for block in ((8192,) if tier == "quick" else (100, 8192, 20000)):
+                for passive in ("epsv", "pasv"):
+                    for mss, lat in (((1460, 0.001),) if tier == "quick" else ((1460, 0.001), (64, 0.0005), (536, 0.004))):
+                        cases.append({"kind": "single", "plan": {"client": True, "direction": direction, "blocks": blocks, "block": block,
+                                                                 "size": 400000, "passive": passive, "mss": mss, "latency": lat, "seed": seed,
+                                                                 "offset": 0 if blocks % 2 else 1234}})
     return cases
